@@ -485,6 +485,32 @@ def op_combine_given_pipes(rng, chinfo, dtype):
     return c
 
 
+def op_factorize(rng, chinfo, dtype):
+    """a factorisation with random options, multiplied back: the product is the input (C01), the factors are valid tensors (C02) and
+    the input - its legs included - is left alone (C03); legs already blocked by charge (no hidden pipe) are drawn on purpose"""
+    import tenpy.linalg.np_conserved as npc
+    from .b_C05 import _matrix
+    a = gen.note_operand(_matrix(rng, chinfo, dtype if np.issubdtype(np.dtype(dtype), np.inexact) else np.float64))
+    which = ['qr', 'lq', 'svd'][int(rng.integers(0, 3))]
+    if which == 'svd' and not np.any(a.to_ndarray()):
+        which = 'qr'          # svd of an all-zero matrix is a documented error
+    iq = int(rng.choice([1, -1]))
+    if which in ('qr', 'lq'):
+        mode = ['reduced', 'complete'][int(rng.integers(0, 2))]
+        pos = bool(rng.integers(0, 2))
+        if which == 'qr':
+            x, y = npc.qr(a, mode=mode, inner_labels=['i', 'i*'], pos_diag_R=pos, inner_qconj=iq)
+        else:
+            x, y = npc.lq(a, mode=mode, inner_labels=['i', 'i*'], pos_diag_L=pos, inner_qconj=iq)
+        name = f'{which}(mode={mode},pos_diag={pos},inner_qconj={iq})'
+        prod = npc.tensordot(x, y, axes=['i', 'i*'])
+    else:
+        U, S, VH = npc.svd(a, inner_labels=['i', 'i*'], inner_qconj=iq)
+        name = f'svd(inner_qconj={iq})'
+        prod = npc.tensordot(U.scale_axis(S, 'i'), VH, axes=['i', 'i*'])
+    return Case(name + ':product', [a], prod, a.to_ndarray(), ['r', 'c'], a.qtotal.copy())
+
+
 def op_gauge_total_charge(rng, chinfo, dtype):
     """move total charge into a leg (optionally flipping its direction): same entries, new qtotal, consistent charges"""
     rk = int(rng.integers(1, 4))
@@ -622,7 +648,7 @@ def op_nothing_to_do(rng, chinfo, dtype):
     return c
 
 
-OPS = [op_chain, op_nothing_to_do, op_multi_combine_split, op_combine_given_pipes, op_gauge_total_charge, op_misc_elementwise, op_add_leg_eye_block, op_grid_outer, op_tensordot, op_outer, op_inner, op_trace, op_transpose, op_conj, op_lincomb, op_combine_split, op_take_slice,
+OPS = [op_chain, op_nothing_to_do, op_multi_combine_split, op_combine_given_pipes, op_factorize, op_gauge_total_charge, op_misc_elementwise, op_add_leg_eye_block, op_grid_outer, op_tensordot, op_outer, op_inner, op_trace, op_transpose, op_conj, op_lincomb, op_combine_split, op_take_slice,
        op_getitem, op_getitem_oob, op_setitem, op_slice_getitem, op_setitem_slices, op_concatenate, op_scale_axis, op_permute,
        op_sort_legcharge, op_squeeze_addleg, op_norm, op_binary_scalar]
 
